@@ -4,6 +4,7 @@ R09.1 dPhidz is the exact z-derivative of the field profile (scalar and broadcas
 R09.2 orientation: profile tends to the low-T vev at z -> -inf, high-T vev at z -> +inf; weight = -dz/dchi  ==> P = V(low) - V(high)
 R09.3 integrand assembly on one grid state: dV/dz = sum_fields dV/dphi * dphi/dz at grid.xiValues, default cardinal/z polynomial,
       Jacobian element 0 of the same grid, no rescaling between _updateGrid and the integral
+R09.5 cached grid data stay consistent under re-mapping (typestate shared with C17); R09.6 the position Jacobian of the three-scale grid is the derivative of its map (shared with C17)
 R09.4 the quadrature applies weight * coefficients * sqrt(1-chi^2) * pi/M on the z axis (shared with C16)
 """
 from __future__ import annotations
@@ -171,6 +172,9 @@ def rules(chk: Check) -> None:
     r09_12(chk)
     r09_3(chk)
     r09_4(chk)
-    from .c17 import cache_coherence
+    from .c17 import cache_coherence, jacobian_identity
     cache_coherence(chk, "R09.5")
     chk.floor("R09.5", 8)
+    # the weight -dz/dchi must be the derivative of the position map of the grid actually used by the wall solver
+    jacobian_identity(chk, "R09.6", "grid3Scales:Grid3Scales", (0,))
+    chk.floor("R09.6", 1)
